@@ -32,7 +32,19 @@ REGR = os.path.join(VERIF, 'regressions')
 
 # behaviour-preserving refactorings whose shape the analysis does not cover:
 # the honest outcome is ANALYSIS-ERROR (never a VIOLATION); DESIGN.md 9.5b
-KNOWN_UNSUPPORTED = {}
+KNOWN_UNSUPPORTED = {
+    'C08-f1': 'wake scan behind a cached earliest deadline: whether the cache '
+              'stays a lower bound of the heap is not modelled (9.5h)',
+    'C10-f1': 'the transform setters walk the listener table themselves (an '
+              'inlined copy of the delivery loop): not modelled (9.5h)',
+    'C05-g1': 'automatic ids tested with get_components(id): equivalent to '
+              'the membership test only because rows are never left empty '
+              '(9.5i)',
+    'C06-g1': 'visited-set test applied to multi-base types only: an '
+              'argument about the class graph (9.5i)',
+    'C08-g1': 'sentinel-free frame counting in the coroutine processor: the '
+              'sentinel rules do not model it (9.5i)',
+}
 
 
 def _variants(prop):
